@@ -15,14 +15,18 @@ RULE = ("list requests over a controller with a local backend, 0-3 known remotes
         "all, forward/reverse/rotated order, error with or without status, item outside the batch: already "
         "delivered / duplicated in the page / never requested / foreign, alone or next to wanted items); plus, "
         "for base requests paged one item at a time, an error / no-progress / repeated item injected at every "
-        "backend call index. Non-trivial = the request involves a cluster other than the local one and is not "
+        "backend call index; plus a cancellation stream (one cluster fails by itself, another one's backend waits "
+        "for the context to be cancelled at a chosen call); about one case in eight uses only three distinct "
+        "modified_at values (ties in the merge order). Non-trivial = the request involves a cluster other than the local one and is not "
         "bypassed; distinct = distinct case line")
 ASSUMPTIONS = [
-    "a backend is a function of the forwarded options and the per-backend call index (stub backends ignore "
-    "context cancellation, so call logs do not depend on goroutine timing)",
+    "a backend is a function of the forwarded options and the per-backend call index; stub backends ignore context "
+    "cancellation except for the scripted action 'w', which blocks until the context is cancelled (so call logs "
+    "never depend on goroutine timing)",
     "an empty page means the remaining requested objects of that cluster no longer exist (as list.go says: "
     "'Zero items == no more results exist')",
-    "modified_at values of distinct objects are distinct (ties would let the unstable sort order them either way)",
+    "objects with equal modified_at may be returned in either order (unstable sort.Slice): compare accepts any order "
+    "of the model's result that keeps the modified_at sequence",
     "honest-backend hypothesis of C20_exactly_once (success + completeness): each page is a duplicate-free list of "
     "existing objects whose uuid is in the batch, non-empty while such objects remain; C20_safe needs no hypothesis "
     "on the backends; a page with an item outside its batch makes the request fail with 502 (fix d542fa4, F10)",
@@ -123,6 +127,23 @@ def _resp_items(resp):
 
 # ------------------------------------------------------------------------------------- compare
 
+def _tsmap(case):
+    """modified_at of every object a backend can return in this case (world + injected items)"""
+    f = case.split(" ")
+    ts = {}
+    for p in _list(f[7], ","):
+        u, t = p.split("@")
+        ts[u] = int(t)
+    for sc in _list(f[8], ";"):
+        for act in sc.split("=", 1)[1].split("|"):
+            for sep in "+^":
+                if act.startswith("p") and sep in act:
+                    for p in act.split(sep, 1)[1].split(","):
+                        u, t = p.split("@")
+                        ts[u] = int(t)
+    return ts
+
+
 def compare(case, impl, model):
     if " | " not in impl or " | " not in model:
         return impl == model
@@ -133,7 +154,14 @@ def compare(case, impl, model):
     if mh.startswith("err ") and ih.startswith("err "):
         # Go returns the error of whichever failing cluster reports first
         return ih[4:] in mh[4:].split("|")
-    return ih == mh
+    if ih == mh:
+        return True
+    if ih.startswith("ok ") and mh.startswith("ok "):
+        # objects with equal modified_at may come in either order (unstable sort.Slice, arrival order)
+        a, b = _list(ih[3:], ","), _list(mh[3:], ",")
+        ts = _tsmap(case)
+        return sorted(a) == sorted(b) and [ts.get(u) for u in a] == [ts.get(u) for u in b]
+    return False
 
 
 # ------------------------------------------------------------------------------------- oracle
@@ -334,7 +362,9 @@ def describe(cases, impl):
                 d["federated with unknown cluster"] += 1
         for acts in c.scripts.values():
             for act in acts:
-                if act.startswith("e"):
+                if act == "w":
+                    d["script: waits for context cancellation"] += 1
+                elif act.startswith("e"):
                     d["script: error"] += 1
                 elif "+" in act or "^" in act:
                     d["script: injected item"] += 1
@@ -408,6 +438,8 @@ def _base(rng, tier):
     if rng.random() < 0.12:
         inv.append(rng.choice(unknown))
     tsp = rng.sample(range(1, 10000), 200)
+    if rng.random() < 0.12:
+        tsp = [rng.randint(1, 3) for _ in range(200)]  # many objects share a modified_at: ties in the merge order
     world, req = [], []
     for cid in [local] + known:
         objs = [_uuid(rng, cid, kind) for _ in range(rng.choice([0, 1, 2, 3, 5]))]
@@ -618,6 +650,40 @@ def _systematic(rng, n_bases):
     return out
 
 
+def _cancel_cases(rng, n):
+    """Context cancellation: one involved cluster fails by itself (unknown cluster -> 404, or an error answer to
+    its first call), another involved known cluster has a backend that honours its context and, at a chosen call,
+    waits until the request is cancelled (script action "w")."""
+    out = []
+    tries = 0
+    while len(out) < n and tries < 50 * n:
+        tries += 1
+        b = _base(rng, "quick")
+        world = dict(b["world"])
+        fl = ["uuid~in~" + _operand(rng, b["req"], allow_nonstring=False)]
+        r27 = _requested(fl)
+        opts = _opts(rng)
+        knownc = [b["local"]] + b["known"]
+        inv_known = [cid for cid in knownc if any(u[:5] == cid for u in r27)]
+        inv_unknown = sorted({u[:5] for u in r27} - set(knownc))
+        sc = {}
+        if inv_unknown and inv_known:
+            waiter = rng.choice(inv_known)
+        elif len(inv_known) >= 2:
+            root, waiter = rng.sample(inv_known, 2)
+            sc[root] = ["e" + rng.choice(["0", "404", "500", "503"])]
+        else:
+            continue
+        exist = [u for u in r27 if u[:5] == waiter and u in world]
+        j = rng.randint(0, len(exist))
+        sc[waiter] = [f"p1.{rng.choice('fr')}"] * j + ["w"]
+        for cid in inv_known:
+            if cid not in sc:
+                sc[cid] = [_honest_act(rng, 3) for _ in range(rng.randint(0, 3))]
+        out.append(_fmt(b["kind"], b["local"], 100, b["remotes"], opts, fl, b["world"], sc))
+    return out
+
+
 def _exhaustive(rng):
     """Small scope, thorough tier: local a + remote b (+ unknown z): up to 2 requested uuids per cluster, all
     subsets of existing objects, page size 1/2/all in both orders."""
@@ -663,6 +729,7 @@ def generate(rng, tier):
     n = 1500 if tier == "quick" else 60000
     cases = [_random_case(rng, tier) for _ in range(n)]
     cases += _systematic(rng, 25 if tier == "quick" else 600)
+    cases += _cancel_cases(rng, 60 if tier == "quick" else 2000)
     if tier != "quick":
         cases += _exhaustive(rng)
     return cases
